@@ -123,12 +123,20 @@ func ruleSuffix(c *Ctx) {
 			}, 4)
 		}, site.committedEvents(), all, "a new suffix is handed out only if the create-if-absent transaction was applied")
 	}
-	// only the leader assigns suffixes
+	ruleSuffixLeaderOnly(c, rule)
+}
+
+// ruleSuffixLeaderOnly: the suffix transaction compares only the suffix key
+// itself (create-if-absent), not the leader record, so the in-memory gate is
+// its only leader guard: Member.IsLeader(), which includes the lease check.
+func ruleSuffixLeaderOnly(c *Ctx, rule string) {
+	P := c.P
+	fn := P.Method("server/tso", "AllocatorManager", "getOrCreateLocalTSOSuffix")
 	isLeader := F(P.Method("server/member", "Member", "IsLeader"))
 	sites, _ := c.nonScaffoldCallers(fn)
 	for _, s := range sites {
 		c.need(rule, s.Caller, "call getOrCreateLocalTSOSuffix", func(x ssa.Instruction) bool { return x == s.Instr.(ssa.Instruction) },
-			[]Ev{guardCall("member.IsLeader()", true, callMatcher(isLeader))}, all, "suffixes are assigned by the PD leader only")
+			[]Ev{guardCall("member.IsLeader()", true, callMatcher(isLeader))}, all, "suffixes are assigned by the PD leader only (lease checked: Member.IsLeader())")
 	}
 	if len(sites) == 0 {
 		c.Undec(rule, "callers of getOrCreateLocalTSOSuffix", "found", "", "")
